@@ -52,11 +52,44 @@ type Prog struct {
 	SPkgs map[string]*ssa.Package // keyed by import path
 	// all source functions of the repository's packages (incl. anonymous and methods)
 	Funcs []*ssa.Function
+	// renamings undone before analysis (old name <- new name), for the evidence file
+	Normalised []string
 }
 
 // Load parses, type-checks and builds SSA for every package of the repository.
 // Any load or type error is returned: the caller must fail the check (fail closed).
+// Pure renamings (unexported functions, methods, struct fields, parameters and named results)
+// relative to the baseline table are undone on an in-memory overlay first, so that rules
+// anchored on names see the names they know (see normalise.go).
 func Load(c Config) (*Prog, error) {
+	p, err := loadOnce(c)
+	if err != nil {
+		return nil, err
+	}
+	ov, notes := renameBack(p)
+	if len(ov) == 0 {
+		return p, nil
+	}
+	c2 := c
+	c2.Overlay = map[string][]byte{}
+	for k, v := range c.Overlay {
+		c2.Overlay[k] = v
+	}
+	for k, v := range ov {
+		c2.Overlay[k] = v
+	}
+	p2, err2 := loadOnce(c2)
+	if err2 != nil {
+		// the rename-back edit did not type-check (name clash): analyse the tree as it is
+		p.Normalised = []string{"rename normalisation abandoned: " + err2.Error()}
+		return p, nil
+	}
+	p2.Cfg = c
+	p2.Normalised = notes
+	return p2, nil
+}
+
+func loadOnce(c Config) (*Prog, error) {
 	env := append(os.Environ(), "GOWORK=off", "GOFLAGS=-mod=mod", "GOPROXY=off", "GOSUMDB=off", "GOTOOLCHAIN=local", "CGO_ENABLED=0")
 	if c.GOOS != "" {
 		env = append(env, "GOOS="+c.GOOS)
